@@ -183,6 +183,18 @@ def run(ctx):
     rng = ctx.rng('bad')
     n = 90 if ctx.tier == 'quick' else 1000
     data_level_cases(ctx)
+    # header arguments of add_logical_file that cannot be represented: sequence numbers that are no positive integer of at most ten
+    # digits (0, negative, 10^10, a float, a str, a bool - str(True) is not a number), identifiers over 65 characters
+    R0 = specgen
+    bad_heads = [(R0.r_str('H'), R0.r_int(0)), (R0.r_str('H'), R0.r_int(-3)), (R0.r_str('H'), R0.r_int(10 ** 10)), (R0.r_str('H'), R0.r_bool(True)),
+                 (R0.r_str('H'), R0.r_bool(False)), (R0.r_str('H'), R0.r_float(R0.f_bits(1.0))), (R0.r_str('H'), R0.r_str('1')),
+                 (R0.r_str('x' * 66), R0.r_int(1)), (R0.r_int(5), R0.r_int(1))]
+    for k, (hid, seq) in enumerate(bad_heads):
+        prog = [{'op': 'newfile', 'ident': 'MAIN-STORAGE-UNIT', 'seq': 1, 'vrl': 8192}, {'op': 'lf', 'fh_id': hid, 'fh_seq': seq}]
+        r = apistream.run_one(ctx, prog, 'K-api-header-args')
+        ctx.count('K-malformed', key=('header_args', k))
+        if r['outs'][1][0] == 'ok':
+            ctx.violation('unrepresentable-header-argument-accepted', {'program': apistream.strip_private(prog)})
     # integers outside their code's range inside value lists of any length (the value layer above write_struct): must raise
     for k in range(16 if ctx.tier == 'quick' else 200):
         prog, info = apistream.gen_value_lists(rng, bad=rng.choice([2 ** 31, -2 ** 31 - 1, 2 ** 32 + 5]))
